@@ -88,6 +88,7 @@ fn main() {
         "c09" => p_min::c09(&o),
         "c03" => p_posmaps::c03(&o),
         "c04" => p_rows::c04(&o),
+        "c14" => p_rows::c14(&o),
         "c18" => p_min::c18(&o),
         other => {
             eprintln!("unknown command {}", other);
